@@ -195,6 +195,7 @@ ValidInit == \E m \in Modes : \E P \in PresentSets(m) : \E h \in HdrChoices(P) :
                         fab |-> fb, fault |-> "none", edit |-> NoEdit]
 FaultInit == \E m \in Modes : \E i \in DOMAIN Faults : \E base \in {"full", "minimal"} :
                /\ EditApplies(m, Faults[i].edit)
+               /\ (base = "minimal" => Faults[i].edit = NoEdit)   \* documentation-level faults: full base only
                /\ LET P == IF base = "full" THEN OptKeys(m) ELSE Faults[i].sets
                   IN cfg = [mode |-> m, present |-> P, hdr |-> {t \in Tables : HasTable(P, t)},
                             asm |-> Faults[i].asm, fr |-> Faults[i].fr, fab |-> Faults[i].fab,
